@@ -356,7 +356,10 @@ def run(tier, seed):
                 solos.append(streams)
             n_streams = len(solos[0])
             rows = [[[] for _ in range(n_streams)] for _ in range(n_inst)]
-            for comp in (comps if mode == "greedy" else comps[n_inst:]):
+            # best-of-K modes: also batch sizes that are multiples of K (a start-node layout that is tiled the wrong way round
+            # gives every instance the full set of starts whenever gcd(batch size, K) = 1)
+            kcomps = [[i % n_inst for i in range(KSTART)], [(3 * i + 1) % n_inst for i in range(2 * KSTART)]]
+            for comp in (comps if mode == "greedy" else comps[n_inst:] + kcomps):
                 td = env.reset(tdg[torch.tensor(comp)].clone())
                 for s, o in enumerate(decode(policy, env, td, mode, kind)):
                     for pos, i in enumerate(comp):
